@@ -12,6 +12,11 @@
    CHist: a threaded history of messages whose outcome the model decides completely
    (hand-over operations with valid arguments), random senders.
 
+   CMig: one MsgMigrateContract: the principal-relevant queries before, whether the sender
+   is the contract's wasm admin, whether a factory parameter message rides along (and the
+   Params id that results), whether the stored cw2 pair is in the accepted range, the
+   outcome and the queries afterwards.
+
    CInst: one instantiation attempt: who sent it (contract? answers Params?), whether the
    address the message names is a contract (recorded; the model must not look at it),
    whether the remaining arguments are those of the ordinary flow, and the outcome. *)
@@ -95,7 +100,9 @@ Record hstep := mkH { h_env : aenv; h_sender : addr; h_msg : amsg; h_ok : bool; 
 Inductive c05_case :=
 | CRow (env : aenv) (init : astate) (m : amsg) (guards_ok : bool) (calls : list acall)
 | CHist (init : astate) (steps : list hstep)
-| CInst (t : inst_target) (p : inst_parties) (args_ok : bool) (ok : bool).
+| CInst (t : inst_target) (p : inst_parties) (args_ok : bool) (ok : bool)
+| CMig (init : astate) (sender_is_wasm_admin : bool) (explicit_params : option N) (version_ok : bool)
+       (ok : bool) (post : astate).
 
 (* one call of a row:
    - the model refuses (sender is not the principal / no such message): the
@@ -125,6 +132,15 @@ Definition c05_check (c : c05_case) : bool :=
   match c with
   | CRow env init m g calls => forallb (row_call_ok env init m g) calls
   | CHist init steps => hist_ok init steps
+  | CMig init adm ex version_ok ok post =>
+      (* a migrate the model refuses (not the wasm admin / a parameter message where none
+         is taken) must fail and move nothing; an allowed one must show exactly the
+         model's state (a frame unless a factory got explicit parameters) and may fail
+         only when the stored cw2 pair is not acceptable *)
+      match migrate_step init adm ex with
+      | Err => negb ok && astate_eqb post init
+      | Ok st' => if ok then astate_eqb post st' else negb version_ok && astate_eqb post init
+      end
   | CInst t p args_ok ok =>
       (* decided by the SENDER alone (ip_named_is_contract is carried by the case and
          ignored by inst_allowed): a sender the model does not allow must fail; an
